@@ -50,19 +50,24 @@ pub struct QCfg {
     /// empty" (an empty buffer after the first one). The call may panic (the history ends there);
     /// if it returns an error instead, the refusal must be free of side effects like any other.
     pub bad_args: bool,
+    /// Include "the queue object is dropped while the device still has it" (no reset, no
+    /// queue_unset: a stand-alone queue, or a transport that cannot unset a queue) as a final
+    /// operation: up to the instant the queue memory is handed back, the device-visible
+    /// available index must not move.
+    pub drop_op: bool,
 }
 
 impl QCfg {
     pub fn label<const N: usize>(&self) -> String {
         format!(
-            "qcore:N={},indirect={},event_idx={},ap={},legacy={},off={},nops={},abs={},trace={},rs={},pre={},wp={},oom={},bad={}",
-            N, self.indirect as u8, self.event_idx as u8, self.ap as u8, self.legacy as u8, self.start_off, self.notify_ops as u8, self.abstract_idx as u8, self.trace as u8, self.reduced as u8, self.preroll, self.wait_pop as u8, self.oom as u8, self.bad_args as u8
+            "qcore:N={},indirect={},event_idx={},ap={},legacy={},off={},nops={},abs={},trace={},rs={},pre={},wp={},oom={},bad={},drop={}",
+            N, self.indirect as u8, self.event_idx as u8, self.ap as u8, self.legacy as u8, self.start_off, self.notify_ops as u8, self.abstract_idx as u8, self.trace as u8, self.reduced as u8, self.preroll, self.wait_pop as u8, self.oom as u8, self.bad_args as u8, self.drop_op as u8
         )
     }
     pub fn parse(s: &str) -> Option<(usize, QCfg)> {
         let s = s.strip_prefix("qcore:")?;
         let mut n = 0usize;
-        let mut c = QCfg { indirect: false, event_idx: false, ap: false, legacy: false, start_off: 0, notify_ops: false, abstract_idx: false, trace: false, reduced: false, preroll: 0, wait_pop: false, oom: false, bad_args: false };
+        let mut c = QCfg { indirect: false, event_idx: false, ap: false, legacy: false, start_off: 0, notify_ops: false, abstract_idx: false, trace: false, reduced: false, preroll: 0, wait_pop: false, oom: false, bad_args: false, drop_op: false };
         for kv in s.split(',') {
             let (k, v) = kv.split_once('=')?;
             let v: u64 = v.parse().ok()?;
@@ -81,6 +86,7 @@ impl QCfg {
                 "wp" => c.wait_pop = v != 0,
                 "oom" => c.oom = v != 0,
                 "bad" => c.bad_args = v != 0,
+                "drop" => c.drop_op = v != 0,
                 _ => return None,
             }
         }
@@ -94,6 +100,11 @@ pub const A_POP_RIGHT: u16 = 200;
 pub const A_POP_WRONG_OUT: u16 = 201;
 pub const A_POP_WRONG_FREE: u16 = 202;
 pub const A_POP_EMPTY: u16 = 203;
+/// pop_used with a token that is no descriptor index but equals the right token modulo the queue
+/// size (token + N), resp. with the top bit set.
+pub const A_POP_WRONG_HIGH: u16 = 204;
+pub const A_POP_WRONG_TOP: u16 = 205;
+pub const A_DROP: u16 = 230;
 pub const A_NOTIFY_OFF: u16 = 210;
 pub const A_NOTIFY_ON: u16 = 211;
 pub const A_WAIT_POP: u16 = 220;
@@ -483,6 +494,11 @@ impl<const N: usize> World<N> {
             if self.wrong_free_token().is_some() {
                 v.push(A_POP_WRONG_FREE);
             }
+            v.push(A_POP_WRONG_HIGH);
+            v.push(A_POP_WRONG_TOP);
+        }
+        if self.cfg.drop_op {
+            v.push(A_DROP);
         }
         if self.cfg.notify_ops {
             v.push(A_NOTIFY_OFF);
@@ -540,6 +556,9 @@ impl<const N: usize> World<N> {
             A_POP_RIGHT => "pop_used(next used token)".into(),
             A_POP_WRONG_OUT => "pop_used(token of another outstanding chain)".into(),
             A_POP_WRONG_FREE => "pop_used(index of a free descriptor)".into(),
+            A_POP_WRONG_HIGH => "pop_used(next used token + queue size)".into(),
+            A_POP_WRONG_TOP => "pop_used(next used token | 0x8000)".into(),
+            A_DROP => "the queue is dropped while the device still has it".into(),
             A_POP_EMPTY => "pop_used(with nothing completed)".into(),
             A_NOTIFY_OFF => "set_dev_notify(false)".into(),
             A_NOTIFY_ON => "set_dev_notify(true)".into(),
@@ -580,6 +599,15 @@ impl<const N: usize> World<N> {
                 let t = self.wrong_free_token().unwrap_or(0);
                 self.do_pop_fail(t, Error::WrongToken, check)
             }
+            A_POP_WRONG_HIGH => {
+                let t = self.fifo.front().map(|f| f.0).unwrap_or(0).wrapping_add(N as u16);
+                self.do_pop_fail(t, Error::WrongToken, check)
+            }
+            A_POP_WRONG_TOP => {
+                let t = self.fifo.front().map(|f| f.0).unwrap_or(0) | 0x8000;
+                self.do_pop_fail(t, Error::WrongToken, check)
+            }
+            A_DROP => self.do_drop(check),
             A_POP_EMPTY => {
                 let t = self.outs.first().map(|o| o.token).unwrap_or(0);
                 self.do_pop_fail(t, Error::NotReady, check)
@@ -1217,10 +1245,48 @@ impl<const N: usize> World<N> {
         }
     }
 
+    /// The queue object goes away while the device still has the queue (it was neither reset nor
+    /// told to forget the queue). C02: at the instants the queue's DMA regions are handed back -
+    /// the last at which the device can read them - the available index still is what was
+    /// published.
+    fn do_drop(&mut self, check: bool) {
+        self.dead = true;
+        let seen: std::rc::Rc<std::cell::RefCell<Vec<u16>>> = Default::default();
+        let s2 = seen.clone();
+        let driver = self.refq.a.driver;
+        hal::with(|h| {
+            h.dealloc_hook = Some(Box::new(move |_paddr, _pages| {
+                if let Some(b) = hal::with(|h| h.peek(driver + 2, 2)) {
+                    s2.borrow_mut().push(u16::from_le_bytes([b[0], b[1]]));
+                }
+                None
+            }))
+        });
+        let q = self.q.take();
+        let tracer = self.tracer.take();
+        let r = crate::util::catch(move || drop(q));
+        self.tracer = tracer;
+        hal::with(|h| h.dealloc_hook = None);
+        tag("drop");
+        if !check {
+            return;
+        }
+        if let Err(p) = r {
+            viol("C03", "drop-panicked", format!("dropping the queue panicked: {}", p));
+        }
+        let want = self.cfg.start_off.wrapping_add(self.adds as u16);
+        for idx in seen.borrow().iter() {
+            if *idx != want {
+                viol("C02", "avail-idx-moved-backwards", format!("while the queue was being dropped (device neither reset nor told to forget the queue) the device could read avail.idx = {}, but {} had been published: the index may never move backwards while the device can read it", idx, want));
+            }
+        }
+    }
+
     fn do_pop_fail(&mut self, token: u16, want: Error, check: bool) {
         let before = if check { Some(self.snap()) } else { None };
-        // Use the buffers of the named chain if it exists, otherwise none.
-        let oi = self.outs.iter().position(|o| o.token == token);
+        // Use the buffers of the named chain if it exists (or of the chain whose token it equals
+        // modulo the queue size), otherwise none.
+        let oi = self.outs.iter().position(|o| o.token == token).or_else(|| self.outs.iter().position(|o| o.token == token & (N as u16 - 1)));
         let res = {
             let (in_refs, mut out_refs): (Vec<&[u8]>, Vec<&mut [u8]>) = match oi {
                 Some(i) => {
